@@ -90,6 +90,8 @@ def generate(tier, seed):
         y = rng.choice([rng.uniform(-90, 90), rng.uniform(-90, 90), rng.uniform(1000, 99999), -rng.uniform(100, 9999)])
         cases.append(dict(kind='roundtrip', name=_name(rng), x=x, y=y, flags=flags,
                           flux=[num() for _ in flags], error=[num() for _ in flags]))
+        if k % 4 == 1 and n:       # the flag vector held as whole numbers in a floating-point array (the setter admits that on purpose)
+            cases[-1]['flag_dtype'] = 'float'
     return cases
 
 
@@ -107,7 +109,11 @@ def impl(case):
         s = Source()
         s.name = case['name']
         s.x, s.y = case['x'], case['y']
-        s.valid = case['flags']
+        if case.get('flag_dtype') == 'float':
+            import numpy as np
+            s.valid = np.array(case['flags'], dtype=float)
+        else:
+            s.valid = case['flags']
         s.flux = case['flux']
         s.error = case['error']
         line = s.to_ascii()
